@@ -284,7 +284,10 @@ func main() {
 	}
 	// FileResumeInfo
 	big := bytes.Repeat([]byte{0x5a, 0xff, 0x00}, (1<<20)/3+1)[:1<<20]
-	bitmaps := [][]byte{nil, {}, {0x00}, {0xff}, {0x01, 0x80}, big}
+	// the reader treats announced lengths above 1 MiB differently: both sides of that boundary
+	over := append(append([]byte{}, big...), 0x81)
+	over777 := append(append([]byte{}, big...), bytes.Repeat([]byte{0x3c}, 777)...)
+	bitmaps := [][]byte{nil, {}, {0x00}, {0xff}, {0x01, 0x80}, big[:1<<20-1], big, over, over777}
 	for bi, bm := range bitmaps {
 		idset := ids
 		a64, a32 := u64s, u32s
@@ -327,6 +330,7 @@ func main() {
 		transfer.CreditBatch{Entries: []transfer.Credit{{StreamID: 1, Credits: 2}, {StreamID: 1<<64 - 1, Credits: 1<<32 - 1}}},
 		transfer.DataStreams{Count: 0},
 		transfer.DataStreams{Count: 65535},
+		transfer.FileResumeInfo{FileID: "0123456789abcdef", StreamID: 5, TotalChunks: 1<<32 - 1, Bitmap: over777, LastVerifiedChunk: 7, LastVerifiedHash: 42},
 		nil,
 	}
 	for i, a := range reps {
@@ -345,6 +349,7 @@ func main() {
 		}
 	}
 	manifests(mine)
+	bigManifests(mine)
 	envelopes(mine)
 	res.Finish()
 }
@@ -394,6 +399,62 @@ func manifests(mine func() bool) {
 				}
 			}
 		}
+	}
+}
+
+// bigManifests: manifest headers whose JSON is just below / above 1 MiB and well above it,
+// followed by further records in the same stream.
+func bigManifests(mine func() bool) {
+	for _, nitems := range []int{9000, 9600, 9700, 9800, 10500, 30000} {
+		if !mine() {
+			continue
+		}
+		m := manifest.Manifest{Root: "big", FileCount: nitems}
+		for k := 0; k < nitems; k++ {
+			m.Items = append(m.Items, manifest.FileItem{RelPath: fmt.Sprintf("dir%04d/%s/file%06d.bin", k%97, rep("n", 20), k), Size: int64(k), ModTime: int64(k) * 3, ID: fmt.Sprintf("%016x", k)})
+			m.TotalBytes += int64(k)
+		}
+		res.Eval()
+		res.Nontrivial(fmt.Sprint("BM|", nitems))
+		var s mem
+		if err := transfer.VerifWriteControlHeader(&s, m); err != nil {
+			continue
+		}
+		hdrLen := len(s.Bytes())
+		follow := []any{transfer.DataStreams{Count: 3}, transfer.FileBegin{RelPath: "dir0000/x", FileSize: 9, ChunkSize: 4, StreamID: 77}}
+		for _, r := range follow {
+			if err := transfer.VerifWriteRecord(&s, r); err != nil {
+				res.InfraError("write %T: %v", r, err)
+			}
+		}
+		s.WriteByte(sentinel)
+		got, err := transfer.VerifReadControlHeader(&s)
+		sig := func(f string) map[string]any {
+			return map[string]any{"record": "manifest-header", "field": f, "class": "large", "seq": true}
+		}
+		if err != nil {
+			res.Violate("mismatch", "c18/roundtrip", sig("decode-error"), fmt.Sprintf("manifest of %d items (%d header bytes): %v", nitems, hdrLen, err), nil)
+			continue
+		}
+		if ok, field := eqRecord(m, got); !ok {
+			res.Violate("mismatch", "c18/roundtrip", sig(field), fmt.Sprintf("manifest of %d items (%d header bytes) comes back different in %s", nitems, hdrLen, field), nil)
+			continue
+		}
+		for _, want := range follow {
+			_, r, err := transfer.VerifReadControlMessage(&s)
+			if err != nil {
+				res.Violate("mismatch", "c18/roundtrip", sig("framing"), fmt.Sprintf("record after a manifest header of %d bytes: %v", hdrLen, err), nil)
+				break
+			}
+			if ok, field := eqRecord(want, r); !ok {
+				res.Violate("mismatch", "c18/roundtrip", sig("framing"), fmt.Sprintf("record after a manifest header of %d bytes: wrote %s, read %s (%s)", hdrLen, brief(want), brief(r), field), nil)
+				break
+			}
+		}
+		if rest := s.Bytes(); len(rest) != 1 || rest[0] != sentinel {
+			res.Violate("mismatch", "c18/roundtrip", sig("framing"), fmt.Sprintf("%d bytes remain after the records that follow a manifest header of %d bytes", len(rest), hdrLen), nil)
+		}
+		res.Sample(map[string]any{"manifest_items": nitems, "header_bytes": hdrLen})
 	}
 }
 
